@@ -158,9 +158,27 @@ fn run_prog(id: &str, lines: &[String], out: &mut String) {
     writeln!(out, "{} table {} {}", id, bdd.nodes.len(), table_string(&bdd)).unwrap();
 }
 
+fn dump_string(d: &str) -> String {
+    // biodivine's to_string: |var,lo,hi|...; the first two entries are the terminals
+    let parts: Vec<&str> = d.split('|').filter(|t| !t.is_empty()).collect();
+    if parts.len() == 1 {
+        return "F".to_string(); // the constant false has only the 0-terminal
+    }
+    if parts.len() == 2 {
+        return "T".to_string();
+    }
+    parts
+        .iter()
+        .skip(2)
+        .map(|t| t.replace(',', ":"))
+        .collect::<Vec<_>>()
+        .join(";")
+}
+
 fn run_adf(id: &str, lines: &[String], out: &mut String) {
     let mut text = String::new();
     let mut sort = "none".to_string();
+    let mut backend = "native".to_string();
     let mut queries: Vec<Vec<String>> = Vec::new();
     let mut seed: Option<u8> = None;
     for line in lines {
@@ -171,7 +189,8 @@ fn run_adf(id: &str, lines: &[String], out: &mut String) {
         match w[0] {
             "text" => text = if w.len() > 1 { unhex(w[1]) } else { String::new() },
             "sort" => sort = w[1].to_string(),
-            "cfg" | "draws" | "flags" => {}
+            "backend" => backend = w[1].to_string(),
+            "cfg" | "draws" | "acdump" | "gdump" => {}
             "seed" => seed = Some(w[1].parse::<u8>().unwrap()),
             "q" => queries.push(w[1..].iter().map(|s| s.to_string()).collect()),
             _ => panic!("bad adf line {}", line),
@@ -200,7 +219,71 @@ fn run_adf(id: &str, lines: &[String], out: &mut String) {
         names.iter().map(|s| hex(s)).collect::<Vec<_>>().join(",")
     )
     .unwrap();
-    let built = catch_unwind(AssertUnwindSafe(|| Adf::from_parser(&parser)));
+    let mut bio: Option<adf_bdd::adfbiodivine::Adf> = None;
+    if backend != "native" {
+        let built = catch_unwind(AssertUnwindSafe(|| {
+            if backend == "hybrew" || backend == "biorew" {
+                adf_bdd::adfbiodivine::Adf::from_parser_with_stm_rewrite(&parser)
+            } else {
+                adf_bdd::adfbiodivine::Adf::from_parser(&parser)
+            }
+        }));
+        match built {
+            Ok(b) => {
+                #[cfg(adf_obdd_verif)]
+                {
+                    let tv = |d: &String| {
+                        // constants are recognised by the bridge through is_true / is_false
+                        d.clone()
+                    };
+                    for (i, d) in b.verif_ac_dumps().iter().enumerate() {
+                        writeln!(out, "{} inject acdump {} {}", id, i, dump_string(&tv(d))).unwrap();
+                    }
+                    for (i, d) in b.verif_grounded_dumps().iter().enumerate() {
+                        writeln!(out, "{} inject gdump {} {}", id, i, dump_string(&tv(d))).unwrap();
+                    }
+                }
+                bio = Some(b);
+            }
+            Err(_) => {
+                writeln!(out, "{} build PANIC", id).unwrap();
+                return;
+            }
+        }
+    }
+    if backend == "bio" || backend == "biorew" {
+        let b = bio.as_ref().unwrap();
+        for (k, q) in queries.iter().enumerate() {
+            let qid = format!("q{}", k);
+            match q[0].as_str() {
+                "grounded" => {
+                    let g = b.grounded();
+                    writeln!(out, "{} {} grounded {} {}", id, qid, interp_string(&g), handles_string(&g)).unwrap();
+                }
+                "complete" => {
+                    let l: Vec<Vec<Term>> = b.complete().collect();
+                    writeln!(out, "{} {} complete {}", id, qid, interps_string(&l)).unwrap();
+                }
+                "stable" => {
+                    let l: Vec<Vec<Term>> = b.stable().collect();
+                    writeln!(out, "{} {} stable {}", id, qid, interps_string(&l)).unwrap();
+                }
+                "stablerew" => {
+                    let mut l: Vec<String> = b.stable_bdd_representation().iter().map(|v| interp_string(v)).collect();
+                    l.sort();
+                    writeln!(out, "{} {} stablerew {}", id, qid, l.join(" ")).unwrap();
+                }
+                "validate" => {}
+                _ => panic!("query {:?} not available on the biodivine back-end", q),
+            }
+        }
+        return;
+    }
+    let built = catch_unwind(AssertUnwindSafe(|| match backend.as_str() {
+        "native" => Adf::from_parser(&parser),
+        "hyb0" => bio.as_ref().unwrap().hybrid_step_opt(false),
+        _ => bio.as_ref().unwrap().hybrid_step_opt(true),
+    }));
     let mut adf = match built {
         Ok(a) => a,
         Err(_) => {
@@ -215,7 +298,7 @@ fn run_adf(id: &str, lines: &[String], out: &mut String) {
         adf.seed([sd; 32]);
         let mut rng = rand::rngs::StdRng::from_seed([sd; 32]);
         let d: Vec<String> = (0..4000).map(|_| rng.next_u64().to_string()).collect();
-        writeln!(out, "{} draws {}", id, d.join(" ")).unwrap();
+        writeln!(out, "{} inject draws {}", id, d.join(" ")).unwrap();
     }
     for (k, q) in queries.iter().enumerate() {
         let qid = format!("q{}", k);
@@ -236,9 +319,19 @@ fn run_adf(id: &str, lines: &[String], out: &mut String) {
                 let l: Vec<Vec<Term>> = adf.stable_with_prefilter().collect();
                 writeln!(out, "{} {} stablepre {}", id, qid, interps_string(&l)).unwrap();
             }
+            "stablerew" => {
+                let mut l: Vec<String> = adf
+                    .stable_bdd_representation(bio.as_ref().expect("stablerew needs a hybrid back-end"))
+                    .iter()
+                    .map(|v| interp_string(v))
+                    .collect();
+                l.sort();
+                writeln!(out, "{} {} stablerew {}", id, qid, l.join(" ")).unwrap();
+            }
             "table" => {
                 writeln!(out, "{} {} table {} {}", id, qid, adf.bdd.nodes.len(), table_string(&adf.bdd)).unwrap();
             }
+            "validate" => {}
             _ => extra::adf_query(id, &qid, q, &mut adf, &parser, out),
         }
     }
